@@ -15,7 +15,9 @@ import (
 type knownFinding struct {
 	Status     string // open | fixed
 	Property   string
-	Obligation string
+	Obligation string // exact obligation name, or
+	Label      string // contract clause label, with
+	Except     string // the class of entry states the finding covers (a spec expression over the callee's parameters)
 	Text       string
 }
 
@@ -46,6 +48,14 @@ func loadKnown(path string) []knownFinding {
 				k.Property = f[9:]
 			} else if strings.HasPrefix(f, "obligation=") {
 				k.Obligation = f[11:]
+			} else if strings.HasPrefix(f, "label=") {
+				k.Label = f[6:]
+			}
+		}
+		if i := strings.Index(l, "except=\""); i >= 0 {
+			rest := l[i+8:]
+			if j := strings.Index(rest, "\""); j >= 0 {
+				k.Except = rest[:j]
 			}
 		}
 		k.Text = l
@@ -210,7 +220,7 @@ func cmdCheck(eng *Engine, args []string) int {
 				}
 				continue
 			}
-			if !hasProp(ob.Props, id) {
+			if !hasProp(ob.Props, id) || ob.WeakOf != "" {
 				continue
 			}
 			nOb++
@@ -226,7 +236,17 @@ func cmdCheck(eng *Engine, args []string) int {
 			// known finding?
 			matched := false
 			for _, k := range known {
-				if k.Status == "open" && k.Property == id && k.Obligation == ob.Name {
+				byName := k.Obligation != "" && k.Obligation == ob.Name
+				byClass := false
+				if k.Label != "" && k.Except != "" && strings.Contains(ob.Name, "/"+k.Label+"#") {
+					// the same obligation restricted to everything outside the recorded class must hold
+					for _, w := range u.Script.obs {
+						if w.WeakOf == ob.Name && w.Result == "unsat" {
+							byClass = true
+						}
+					}
+				}
+				if k.Status == "open" && k.Property == id && (byName || byClass) {
 					matched = true
 					if !seenKnown[k.Text] {
 						seenKnown[k.Text] = true
